@@ -73,9 +73,14 @@ Definition compiled_diff (c : compiled) (rq : query) (rlabels : list (uid * stri
   (if forallb (fun u => String.eqb (label (c_labels c) u) (label rlabels u)) (q_select (c_q c)) then [] else [10%nat]) ++
   (if subset_u (c_scope c) rscope && subset_u rscope (c_scope c) then [] else [11%nat]).
 
-(* outcome for one real AST: (in the model's domain?, differences, satisfies flat_ok?) *)
-Definition l3_check (a : ast) (rq : query) (rlabels : list (uid * string)) (rscope : list uid) : nat * list nat * nat :=
+(* outcome for one real AST: (in the model's domain?, differences, satisfies flat_ok?)
+   12: the select lists handed to compile_query for the operands of the unions (cq_log) differ *)
+Definition l3_check (a : ast) (rq : query) (rlabels : list (uid * string)) (rscope : list uid)
+           (rlog : list (list uid)) : nat * list nat * nat :=
   match compile a with
-  | Some c => (1%nat, compiled_diff c rq rlabels rscope, if flat_ok a then 1%nat else 0%nat)
+  | Some c => (1%nat,
+               (compiled_diff c rq rlabels rscope
+                ++ (if list_eqb2 (list_eqb2 N.eqb) (cq_log a) rlog then [] else [12%nat]))%list,
+               if flat_ok a then 1%nat else 0%nat)
   | None => (0%nat, [], 0%nat)
   end.
